@@ -22,6 +22,11 @@ package comp
 //   pseq m d1 d2 …  documents d1, d2, … (SEa SEr R<n> A<n> E S) decoded one after the other into ONE value,
 //                   m = direct | outer (through a LoadControlLimitDataType decoded into repeatedly)
 //   reuse k v…      one receiver used repeatedly (k = sn k d | dur z | art unixsec)
+//   ttext / tread / tlib   instants at the level of the text (Spine.TimeText): see numeric_time_test.go
+//
+// The columns `decimals` and `product` of a scaled-number observation are evaluated from the expression trees the
+// translator generator `scaledexpr` recovered from the source of the tree under test (numScaledSrc); the single-value
+// phases are drawn from the seeded generator first and then run as op lists on the workers (numRunOpsParallel).
 
 import (
 	"encoding/json"
